@@ -141,4 +141,46 @@ def runFrom (cfg : Cfg) (st : St) (evs : List Ev) : St := evs.foldl (step cfg) s
 
 def run (cfg : Cfg) (asm : Frame) (evs : List Ev) : St := runFrom cfg (init asm) evs
 
+/-! ### layout hypotheses (what `allocate` has to establish; decidable, evaluated by the driver) -/
+
+/-- the variable lies inside a frame of `L` bytes -/
+def Var.inB (L : Nat) : Var → Prop
+  | .bytes s n => s + n ≤ L
+  | .bit s k => s + 1 ≤ L ∧ k < 8
+
+instance (L : Nat) (x : Var) : Decidable (Var.inB L x) := by
+  cases x <;> simp only [Var.inB] <;> infer_instance
+
+/-- the two variables do not share a byte -/
+def disjoint (x w : Var) : Bool :=
+  decide (x.start + x.len ≤ w.start) || decide (w.start + w.len ≤ x.start)
+
+/-- writing `w` cannot change what `x` reads: no common byte, or two different bits -/
+def indep (x w : Var) : Bool :=
+  disjoint x w ||
+    match x, w with
+    | .bit s k, .bit s' k' => s == s' && k != k'
+    | _, _ => false
+
+def IndepR (x w : Var) : Prop := indep x w = true
+
+def cvar (pc : Nat × Nat) : Var := .bytes pc.1 2
+def counterVars (cfg : Cfg) : List Var := cfg.counters.map cvar
+def allIns (cfg : Cfg) : List Var := cfg.devs.flatMap (·.ins)
+def allOuts (cfg : Cfg) : List Var := cfg.devs.flatMap (·.outs)
+
+/-- variables and counters lie inside the frame, counter fields do not overlap each other, an input
+overlaps no counter and no output, outputs overlap no counter and are pairwise independent -/
+def Layout (cfg : Cfg) (L : Nat) : Prop :=
+  (∀ x ∈ counterVars cfg, Var.inB L x) ∧ (∀ x ∈ allIns cfg, Var.inB L x) ∧ (∀ x ∈ allOuts cfg, Var.inB L x) ∧
+  (counterVars cfg).Pairwise IndepR ∧
+  (∀ x ∈ allIns cfg, ∀ w ∈ counterVars cfg, indep x w = true) ∧
+  (∀ x ∈ allIns cfg, ∀ w ∈ allOuts cfg, indep x w = true) ∧
+  (∀ x ∈ allOuts cfg, ∀ w ∈ counterVars cfg, indep x w = true) ∧
+  (allOuts cfg).Pairwise IndepR
+
+instance (x w : Var) : Decidable (IndepR x w) := by unfold IndepR; infer_instance
+instance (cfg : Cfg) (L : Nat) : Decidable (Layout cfg L) := by unfold Layout; infer_instance
+
+
 end Ebv.SlowCycle
